@@ -116,11 +116,12 @@ class C05(Check):
                             if got != want:
                                 return bad("wrong_row_count", f"table {table.name}: {got} rows for {want} distinct objects")
                         if model.get("extras"):
-                            want = sum(1 for o in reach if type(o).__name__ == "Vec")
+                            # every point of a reachable Track is stored as a Vec row of its own
+                            want = sum(1 for o in reach if type(o).__name__ == "Vec") + sum(len(o.points) for o in reach if type(o).__name__ == "Track")
                             got = session.execute(select(func.count()).select_from(layer.dao_class(layer.mod.Vec).__table__)).scalar()
                             if got != want:
                                 return bad("wrong_row_count", f"table of the alternatively mapped class: {got} rows for {want} distinct objects")
-                            for cname in ("Label", "Title"):
+                            for cname in ("Label", "Title", "Track"):
                                 want = sum(1 for o in reach if isinstance(o, getattr(layer.mod, cname)))
                                 table = layer.dao_class(getattr(layer.mod, cname)).__table__
                                 got = session.execute(select(func.count()).select_from(table)).scalar()
